@@ -18,7 +18,7 @@ if st:
 out_path = os.path.join(root, "RESULTS.json")
 results = json.load(open(out_path)) if os.path.exists(out_path) else {}
 for name in names:
-    pid = name.split("_")[0]
+    pid = name[:3]
     patch = os.path.join(root, name, "patch.diff")
     if subprocess.run(["git", "-C", "/repo", "apply", patch]).returncode != 0:
         results[name] = {"property": pid, "error": "patch does not apply"}
